@@ -242,9 +242,15 @@ def solve(env, topo, cell_order=None):
     Ts = {}
     alpha, beta = env.real("alpha"), env.real("beta")
     for tag in ("a", "b", "c"):
-        b = tissue.build(spec, fs, cell_order=cell_order)
-        fr = fs.frames.Frame(0, b.vertices, b.edges, b.cells, time=0)
-        F = fs.ForSys({0: fr})
+        if tag == "c":
+            # the third pressure step is taken on the *same* solver object as the first one, after the tensions changed:
+            # the equations must follow the current tensions
+            b, fr, F = runs["a"][0], runs["a"][1], runs["a"][2]
+            first_pressures = {cid: c_.pressure for cid, c_ in fr.cells.items()}
+        else:
+            b = tissue.build(spec, fs, cell_order=cell_order)
+            fr = fs.frames.Frame(0, b.vertices, b.edges, b.cells, time=0)
+            F = fs.ForSys({0: fr})
         for be in fr.internal_big_edges:
             ln = tissue.line_of_big_edge(b, be.get_vertices_ids())[0]
             if tag == "c":
@@ -254,12 +260,15 @@ def solve(env, topo, cell_order=None):
                 be.tension = Ts[tag][ln]
         F.build_pressure_matrix(when=0)
         F.solve_pressure(when=0, method="lagrange_pressure")
-        runs[tag] = (b, fr, F, F.pressure_matrices[0], stubs.CAP.get("inv", [])[-1] if stubs.CAP.get("inv") else None)
-    b, fr, F, pm, inv = runs["a"]
+        runs[tag] = (b, fr, F, F.pressure_matrices[0], stubs.CAP.get("inv", [])[-1] if stubs.CAP.get("inv") else None,
+                     {cid: c_.pressure for cid, c_ in fr.cells.items()}, list(F.pressure_matrices[0].solution),
+                     np.asarray(F.pressure_matrices[0].lhs_matrix, dtype=object).copy(), list(F.pressure_matrices[0].rhs_matrix))
+    b, fr, F, pm, inv = runs["a"][:5]
+    pm_sol, pm_L, pm_r = runs["a"][6], runs["a"][7], runs["a"][8]
     obs = []
-    L, r = np.asarray(pm.lhs_matrix, dtype=object), list(pm.rhs_matrix)
+    L, r = pm_L, pm_r
     ne, nc = L.shape
-    sol = list(pm.solution)
+    sol = pm_sol
     kept = [i for i in range(len(fr.cells)) if i not in pm.removed_columns]
     p = [sol[i] for i in kept]
     if inv is not None and len(inv["x"]) == nc + 1:
@@ -289,18 +298,18 @@ def solve(env, topo, cell_order=None):
     zero_ok = env.true()
     own = env.true()
     for cn, _ in spec.cells:
-        cell = fr.cells[b.cid_of[cn]]
-        own = own & env.eq(cell.pressure, sol[pm.mapping_order[b.cid_of[cn]]])
+        cp = runs["a"][5][b.cid_of[cn]]
+        own = own & env.eq(cp, sol[pm.mapping_order[b.cid_of[cn]]])
         if cn not in touching:
-            zero_ok = zero_ok & env.eq(cell.pressure, 0) & (pm.mapping_order[b.cid_of[cn]] in pm.removed_columns)
+            zero_ok = zero_ok & env.eq(cp, 0) & (pm.mapping_order[b.cid_of[cn]] in pm.removed_columns)
     obs.append(Ob("cells-touching-no-internal-interface-get-zero", zero_ok))
     obs.append(Ob("each-cell-carries-the-pressure-of-its-own-column", own))
     # linearity in the tensions
     lin = env.true()
     for cn, _ in spec.cells:
-        pa = runs["a"][1].cells[runs["a"][0].cid_of[cn]].pressure
-        pb = runs["b"][1].cells[runs["b"][0].cid_of[cn]].pressure
-        pcc = runs["c"][1].cells[runs["c"][0].cid_of[cn]].pressure
+        pa = runs["a"][5][runs["a"][0].cid_of[cn]]
+        pb = runs["b"][5][runs["b"][0].cid_of[cn]]
+        pcc = runs["c"][5][runs["c"][0].cid_of[cn]]
         lin = lin & env.eq(pcc, alpha * pa + beta * pb, tol=1e-6)
     obs.append(Ob("pressures-are-linear-in-the-tensions", lin))
     return obs
@@ -323,7 +332,7 @@ def jobs(tier):
     for n in ((3, 4) if quick else (3, 4, 5, 6)):
         js.append(Job(f"straight-n{n}", "c04:straight", dict(n=n), budget_s=900, weight=3))
     for what in ("translation", "reflection", "scaling"):
-        js.append(Job(f"similarity-{what}", "c04:similarity", dict(what=what), budget_s=900, weight=5))
+        js.append(Job(f"similarity-{what}", "c04:similarity", dict(what=what), budget_s=900, weight=5, opts=dict(sample_tries=30)))
     for flip0 in (False, True):
         for flip1 in (False, True):
             for order in (["c0", "c1", "c2"], ["c1", "c0", "c2"], ["c2", "c1", "c0"]):
